@@ -114,6 +114,10 @@ def childEq (a b : Child) : Bool :=
 def getKid (kids : List Child) (spi : Bytes) : Option Child :=
   kids.find? fun c => spi = c.inSpi ∨ spi = c.outSpi
 
+/-- `get_child_sa(spi, named_by_peer=True)`: the peer names a CHILD_SA by the SPI of its own inbound SA = our outbound one -/
+def getKidOut (kids : List Child) (spi : Bytes) : Option Child :=
+  kids.find? fun c => spi = c.outSpi
+
 /-- `list.remove(x)`: the first element equal to `x` -/
 def removeKid (kids : List Child) (x : Child) : List Child := kids.eraseP (childEq x)
 
@@ -593,7 +597,7 @@ def childRekeyPrelude (request : Msg) (sa : List Proposal) (tsi tsr : List TS) :
   match getNotifies request nREKEY_SA true with
   | [] => pure []
   | (proto, spi, _) :: _ =>
-    match getKid me.ext.kids spi with
+    match getKidOut me.ext.kids spi with
     | none => HM.raise (excChildNotFound proto spi)
     | some old => do
       if me.core.st = stDEL_CHILD_REQ_SENT ∧ (me.ext.deleting.map (childEq old)) = some true then HM.raise excTemporaryFailure
@@ -714,7 +718,7 @@ def deleteSpis (proto : Nat) : List Bytes → List Payload → HM (List Payload)
   | [], acc => pure acc
   | spi :: rest, acc => do
     let me ← getMe
-    match getKid me.ext.kids spi with
+    match getKidOut me.ext.kids spi with
     | some c =>
       if c.proposal.proto = proto then do
         untrackChild c
